@@ -295,9 +295,21 @@ pub enum LoomResult {
 
 /// Run `cases` on `workers` loom worker processes; results in case order
 pub fn run_loom(cases: &[Value], workers: usize) -> Vec<LoomResult> {
+    if let Ok(path) = std::env::var("VERIF_DUMP_CASES") {
+        use std::io::Write as _;
+        if let Ok(mut file) = std::fs::OpenOptions::new().create(true).append(true).open(path) {
+            for case in cases.iter().step_by(97) {
+                let _ = writeln!(file, "{}", case);
+            }
+        }
+        if std::env::var("VERIF_DUMP_EXIT").is_ok() {
+            std::process::exit(3);
+        }
+    }
     let results: Mutex<BTreeMap<usize, LoomResult>> = Mutex::new(BTreeMap::new());
     let next = std::sync::atomic::AtomicUsize::new(0);
-    let chunk = 8usize;
+    // cheap cases (decomposition mode) in large chunks: a worker process per chunk
+    let chunk = if cases.first().map(|c| c["mode"].as_str() == Some("decomposition")).unwrap_or(false) { 512usize } else { 8usize };
     std::thread::scope(|scope| {
         for _ in 0..workers.max(1) {
             scope.spawn(|| loop {
@@ -316,16 +328,25 @@ pub fn run_loom(cases: &[Value], workers: usize) -> Vec<LoomResult> {
                         .env("RUST_BACKTRACE", "0")
                         .spawn()
                         .expect("spawn vloom");
-                    {
-                        let mut stdin = child.stdin.take().unwrap();
-                        for (off, case) in cases[pos..end].iter().enumerate() {
+                    // feed the cases from a separate thread: the worker answers while it reads, and
+                    // two full pipes would otherwise block both sides
+                    let mut stdin = child.stdin.take().unwrap();
+                    let feed: Vec<String> = cases[pos..end]
+                        .iter()
+                        .enumerate()
+                        .map(|(off, case)| {
                             let mut case = case.clone();
                             case["id"] = json!(pos + off);
-                            if writeln!(stdin, "{}", case).is_err() {
+                            case.to_string()
+                        })
+                        .collect();
+                    let feeder = std::thread::spawn(move || {
+                        for line in feed {
+                            if writeln!(stdin, "{}", line).is_err() {
                                 break;
                             }
                         }
-                    }
+                    });
                     let stdout = BufReader::new(child.stdout.take().unwrap());
                     let mut running: Option<usize> = None;
                     let mut finished = pos;
@@ -351,6 +372,7 @@ pub fn run_loom(cases: &[Value], workers: usize) -> Vec<LoomResult> {
                         let _ = stderr.read_to_string(&mut err);
                     }
                     let status = child.wait().ok();
+                    let _ = feeder.join();
                     match running {
                         Some(id) => {
                             let tail: String = err.lines().filter(|l| !l.trim().is_empty()).rev().take(12).collect::<Vec<_>>().into_iter().rev().collect::<Vec<_>>().join(" | ");
@@ -394,26 +416,35 @@ pub fn judge_loom(ctx: &Ctx, case: &Value, res: &LoomResult, totals: &mut LoomTo
         LoomResult::Done(Value::Array(per_target)) => {
             let mut ok = true;
             for val in per_target {
-                let mut one = case.clone();
-                one["targets"] = json!([val["target"]]);
-                ok &= judge_one(ctx, &one, &LoomResult::Done(val.clone()), totals);
+                ok &= judge_one(ctx, case, Some(&val["target"]), &LoomResult::Done(val.clone()), totals);
             }
             ok
         }
-        other => judge_one(ctx, case, other, totals),
+        other => judge_one(ctx, case, None, other, totals),
     }
 }
 
-fn judge_one(ctx: &Ctx, case: &Value, res: &LoomResult, totals: &mut LoomTotals) -> bool {
-    let label = format!(
-        "[{} {} T={} targets={} {}] on {}",
-        case["method"].as_str().unwrap_or("?"),
-        case["spec"],
-        case["iters"],
-        case["targets"],
-        case["mode"].as_str().unwrap_or("?"),
-        Tree::from_replay(&case["tree"]).show()
-    );
+/// the replay form of one (case, target): built only when something is reported
+fn one_target(case: &Value, target: Option<&Value>) -> Value {
+    let mut one = case.clone();
+    if let Some(target) = target {
+        one["targets"] = json!([target]);
+    }
+    one
+}
+
+fn judge_one(ctx: &Ctx, case: &Value, target: Option<&Value>, res: &LoomResult, totals: &mut LoomTotals) -> bool {
+    let label = || {
+        format!(
+            "[{} {} T={} targets={} {}] on {}",
+            case["method"].as_str().unwrap_or("?"),
+            case["spec"],
+            case["iters"],
+            target.unwrap_or(&case["targets"]),
+            case["mode"].as_str().unwrap_or("?"),
+            Tree::from_replay(&case["tree"]).show()
+        )
+    };
     totals.cases += 1;
     match res {
         LoomResult::Died(msg) => {
@@ -424,7 +455,7 @@ fn judge_one(ctx: &Ctx, case: &Value, res: &LoomResult, totals: &mut LoomTotals)
             } else {
                 "panic-under-schedule"
             };
-            ctx.violation(class, &format!("the loom worker died while exploring the schedules of {}: {}", label, msg), case.clone());
+            ctx.violation(class, &format!("the loom worker died while exploring {}: {}", label(), msg), one_target(case, target));
             false
         }
         LoomResult::Done(val) => {
@@ -450,14 +481,14 @@ fn judge_one(ctx: &Ctx, case: &Value, res: &LoomResult, totals: &mut LoomTotals)
             ctx.add(&ctx.states, execs);
             ctx.add(&ctx.evaluations, execs);
             ctx.add(&ctx.validated, execs);
-            ctx.add(&ctx.transitions, val["atomic_ops"].as_u64().unwrap_or(0) + val["tasks_spawned"].as_u64().unwrap_or(0));
+            ctx.add(&ctx.transitions, val["atomic_ops"].as_u64().unwrap_or(0) + val["tasks_spawned"].as_u64().unwrap_or(0) + execs);
             if tasks >= 2 {
                 ctx.add(&ctx.nontrivial, execs);
             }
             let flagged = case["flagged"].as_bool().unwrap_or(false);
             let mut ok = true;
             if val["errors"].as_u64().unwrap_or(0) > 0 {
-                ctx.violation("error-returned", &format!("{} schedules of {} returned {}", val["errors"], label, val["first_error"]), case.clone());
+                ctx.violation("error-returned", &format!("{} schedules of {} returned {}", val["errors"], label(), val["first_error"]), one_target(case, target));
                 ok = false;
             }
             if val["mismatches"].as_u64().unwrap_or(0) > 0 {
@@ -465,7 +496,7 @@ fn judge_one(ctx: &Ctx, case: &Value, res: &LoomResult, totals: &mut LoomTotals)
                     ctx.count("ill_conditioned_(tie_or_near_zero_regret_sum;_differs;_not_compared)", 1);
                 } else {
                     let class = if case["mode"].as_str() == Some("decomposition") { "decomposition-dependent-result" } else { "schedule-dependent-result" };
-                    ctx.violation(class, &format!("{} of {} schedules of {} differ from one thread: {}", val["mismatches"], execs, label, val["first_mismatch"]), case.clone());
+                    ctx.violation(class, &format!("{} of {} schedules of {} differ from one thread: {}", val["mismatches"], execs, label(), val["first_mismatch"]), one_target(case, target));
                     ok = false;
                 }
             }
@@ -473,12 +504,27 @@ fn judge_one(ctx: &Ctx, case: &Value, res: &LoomResult, totals: &mut LoomTotals)
                 if flagged {
                     ctx.count("ill_conditioned_(tie_or_near_zero_regret_sum;_differs;_not_compared)", 1);
                 } else {
-                    ctx.violation("schedule-dependent-draws", &format!("{} of {} schedules of {}: {}", val["draw_problems"], execs, label, val["first_draw_problem"]), case.clone());
+                    let class = if case["mode"].as_str() == Some("decomposition") { "decomposition-dependent-draws" } else { "schedule-dependent-draws" };
+                    ctx.violation(class, &format!("{} of {} schedules of {}: {}", val["draw_problems"], execs, label(), val["first_draw_problem"]), one_target(case, target));
                     ok = false;
                 }
             }
             ok
         }
+    }
+}
+
+impl LoomTotals {
+    pub fn merge(&mut self, other: &LoomTotals) {
+        self.schedules += other.schedules;
+        self.cases += other.cases;
+        self.cases_with_concurrency += other.cases_with_concurrency;
+        self.capped += other.capped;
+        self.bounded += other.bounded;
+        self.max_tasks = self.max_tasks.max(other.max_tasks);
+        self.distinct_outcomes_max = self.distinct_outcomes_max.max(other.distinct_outcomes_max);
+        self.cases_with_several_outcomes += other.cases_with_several_outcomes;
+        self.oversize += other.oversize;
     }
 }
 
